@@ -49,7 +49,7 @@ CHECKS.update({
    tech=TECH + 'RNG replaced by its contract (outcome enumeration); numeric runs on structured states as bounded stand-in'),
  'C12': dict(level='other', ref='DESIGN.md §7 C12',
    text='Proved (exact identities, symbolic complex Kraus operators / arbitrary operators and input, dim_in,dim_out in 1..3 (4), 1..3 (4) terms): apply_kraus == apply_choi o kraus_to_choi == apply_super o kraus_to_super == sum K rho K^dagger; Choi is the Gram matrix of the vectorised Kraus operators (=> CP); '
-        'choi<->super conversions mutually inverse and consistent with both applies on non-square dimension pairs; hf_channel_to_choi_op; the affine Bloch map reproduces the output Bloch vector; the three noise channels are trace preserving for a SYMBOLIC rate in [0,1]; choi_op_to_kraus_op / super_op_to_kraus_op with numpy.linalg.eigh replaced by its assumed contract (fixed rational eigenvalues, n0 below the threshold, and a fully symbolic eigenvector matrix): the Choi matrix of the returned Kraus operators is exactly the spectral part above the threshold, shapes (D-n0,dout,din). '
+        'choi<->super conversions mutually inverse and consistent with both applies on non-square dimension pairs; hf_channel_to_choi_op; the affine Bloch map reproduces the output Bloch vector; the three noise channels are trace preserving for a SYMBOLIC rate in [0,1]; choi_op_to_kraus_op / super_op_to_kraus_op with numpy.linalg.eigh replaced by its assumed contract (fixed rational eigenvalues, n0 below the threshold, and a fully symbolic eigenvector matrix): the Choi matrix of the returned Kraus operators is exactly the spectral part above the threshold, shapes (D-n0,dout,din); get_fidelity (numpy branch): the three pure-state cases are exact identities, the mixed/mixed case hands D V^dagger rho1 V D to eigvalsh (D = diag sqrt max(0,w)) and returns the squared sum of the roots of the non-negative eigenvalues (assumed eigh / eigvalsh contracts), d=2,3 (4). '
         'Bounded: conversions back to Kraus form end-to-end through LAPACK, data-processing inequalities, fidelity/entropy ranges, torch branches.',
    note=ALG_NOTE + ' The inequalities between spectral functions (trace distance, fidelity, relative entropy) cannot be decided by contract-based deduction; they are evaluated at run time on seeded channels/states (bounded).',
    tech=TECH + 'run-time contract evaluation for the spectral clauses as bounded stand-in'),
@@ -110,7 +110,7 @@ EXPL_NOTE = ('Trusted: NumPy/LAPACK/SciPy/cvxpy float64 arithmetic with the stat
 CHECKS.update({
  'C05': dict(level='exploration', ref='DESIGN.md §7 C05',
    text='Bounded: every necessary criterion (PPT, generalized PPT, CCNR, reduction, swap witness, symmetric / bosonic extension SDPs k=2 (3 thorough)) passes on enumerated structured and seeded random separable states in dims (2,2)..(2,3,2), including boundary, rank-deficient and nearly parallel product terms; two-qubit concurrence / EOF / GME / negativity finite and zero on them. '
-        'Proved core (not claimed as the level): the matrices the criteria test are the partial transposes / realignments / reduction operators of a symbolic rho; the bipartition enumeration of the generalized PPT test is complete and duplicate-free.',
+        'Proved core (not claimed as the level): the matrices the criteria test are the partial transposes / realignments / reduction operators of a symbolic rho; the bipartition enumeration of the generalized PPT test is complete and duplicate-free; the verdicts of is_ppt / check_reduction_witness / is_generalized_ppt are exactly the conjunction of the PSD-oracle answers, resp. "every nuclear norm <= 1+1e-10" (every oracle answer pattern enumerated).',
    note=EXPL_NOTE, tech=TECH + 'here only for the index-algebra core; deciding part: run-time contract evaluation on separable states (bounded stand-in)'),
  'C06': dict(level='exploration', ref='DESIGN.md §7 C06',
    text='Bounded: both-sides threshold probes (beta*(1-1e-6) inside, beta*(1+1e-6) outside) of get_density_matrix_boundary / get_ppt_boundary along random rays and states, batched == per-item, nesting beta_CHA <= beta_(k+1)-ext <= beta_k-ext <= beta_PPT <= beta_DM up to 1e-4, inner-model states at arbitrary parameters accepted by the outer tests. '
@@ -118,7 +118,7 @@ CHECKS.update({
    note=EXPL_NOTE + ' cvxpy SolverError in this sandbox (the CHA LP; its own test is in the always-failing baseline set) is counted as skipped, never as a violation.', tech=TECH + 'here only for the interpolation / delegation core; deciding part: run-time contract evaluation along seeded rays (bounded stand-in)'),
  'C13': dict(level='exploration', ref='DESIGN.md §7 C13',
    text='Bounded: on seeded two-qubit states of every rank (Haar, Bures, Werner, isotropic, near-separable, boundary) concurrence / EOF / GME / negativity are finite, in range, related by the closed forms, local-unitary invariant and agree with the pure-state formulas; every variational convex-roof model at random parameters (scales 0.1, 1, 10; ensemble sizes rank..8) is >= the closed form - 1e-7. '
-        'Proved core: the spin-flip matrix whose spectrum get_concurrence_2qubit takes, and get_concurrence_pure(psi)^2 == 2(1 - Tr rho_A^2) for symbolic psi.',
+        'Proved core: the spin-flip matrix whose spectrum get_concurrence_2qubit takes, the Wootters formula max(0, l_max - sum of the others) applied to the eigenvalues the eigen-routine reports, and get_concurrence_pure(psi)^2 == 2(1 - Tr rho_A^2) for symbolic psi.',
    note=EXPL_NOTE, tech=TECH + 'here only for the spin-flip / pure-state core; deciding part: run-time contract evaluation on seeded states and model parameters (bounded stand-in)'),
  'C14': dict(level='exploration', ref='DESIGN.md §7 C14',
    text='Exhaustive enumeration of the finite quantifier (exhaustive: true): every constructible Cayley table of order <= 120 satisfies the group axioms over ALL triples, left-regular forms are faithful homomorphisms over all pairs, irreducible blocks are unitary homomorphisms with sum dim^2 = |G| (order <= 24, 120 thorough), '
@@ -129,9 +129,11 @@ CHECKS.update({
    text='Proved (exact polynomial identities over complex indeterminates on the REAL has_rank_hierarchical_method / is_ABC_completely_entangled_subspace, shapes (dimA,dimB,N,r,k) up to (3,3,3,2,1), (2,2,2,1,3), tripartite up to (2,2,3), k<=2 (3 thorough)): the matrix handed to LU is rows.rows^dagger; '
         'the row of a combination M = sum c_i A_i is a weighted sum of the rows with non-zero constant weights read off the code; the row of a generator of rank <= r (resp. a product vector) vanishes identically; hence a subspace containing a low-rank element / product vector makes the Gram matrix singular '
         'and the certificate cannot be issued in exact arithmetic. Also proved, for get_matrix_orthogonal_basis with its two SVD/eigh-based vector routines replaced by their assumed contracts (fresh symbolic orthonormal rows), all 7 structure classes, m,n<=3 (4 thorough): the structure label, the coordinates reproduce every generator (block embedding for R_c/R_cT), the chart coordinates->matrices is an isometry up to one constant c>0, its images lie in the ambient structured space, and the number of coordinates equals the ambient dimension. '
+        'Also proved for detect_real_matrix_subspace_rank_one (eigen-routines and the scalar minimiser replaced by recorders): the operator handed to the bound is the projector of the orthonormal basis, the eigen family is p*mat+(1-p)*mat^Gamma with the reported extreme eigenvalue returned, its quadratic form on real product vectors does not depend on p, and the tag is False exactly below 1-zero_eps - hence the bound is >= 1 whenever the subspace contains a rank-one element (dims (2,2),(2,3),(3,3)). '
+        'And for get_matrix_numerical_range (eigen-routines as recorders, N=2,3,5): one Hermitian eigenproblem (e^{it}A+h.c.)/2 per sampling angle, the LARGEST eigenpair requested (last eigh column / which=LA), the point returned is v^dagger A v, and Re(e^{it} v^dagger A v) = v^dagger H_t v identically - so the point attains the support function when v is the top unit eigenvector. '
         'Bounded: get_matrix_orthogonal_basis end-to-end on 9 generator classes x dims 2..5 (kind label, structure, Gram = c I, span equality, complement, dimension count); planted instances through the floating-point LU (r=2,3; k=1..3; real / complex); '
         'detect_real_matrix_subspace_rank_one on planted rank-one elements; every point of get_matrix_numerical_range attains the support function (sizes 2..8); the (anti)symmetric projector tables (enumerated).',
-   note=EXPL_NOTE + ' Meta-steps of the soundness argument (trusted): dependent rows => singular Gram matrix => a zero pivot in exact LU; floats are reals. Assumed contracts in the chart proofs: reduce_vector_space returns orthonormal rows spanning the row space of its argument, get_vector_orthogonal_basis an orthonormal basis of the complement (LAPACK; exercised end-to-end by the bounded job); the float-threshold classification of the input is decided generically (an expression is below zero_eps iff it vanishes identically) and listed per obligation. The decomposition, the real rank-one detector (eigenvalue bound + scalar minimisation) and the numerical range are bounded only.',
+   note=EXPL_NOTE + ' Meta-steps of the soundness argument (trusted): dependent rows => singular Gram matrix => a zero pivot in exact LU; floats are reals. Assumed contracts in the chart proofs: reduce_vector_space returns orthonormal rows spanning the row space of its argument, get_vector_orthogonal_basis an orthonormal basis of the complement (LAPACK; exercised end-to-end by the bounded job); the float-threshold classification of the input is decided generically (an expression is below zero_eps iff it vanishes identically) and listed per obligation. The SVD/eigh/ARPACK/Brent steps themselves, the floating-point LU and the numerical range are bounded only.',
    tech=TECH + 'recorder stubs on opt_einsum.contract / scipy.linalg.lu to obtain the rows the real code builds; run-time contract evaluation on seeded structured / planted instances as bounded stand-in'),
 })
 PENDING = 'contracts for this property are not built yet in this revision (work in progress, see DESIGN.md §7/§10)'
